@@ -120,10 +120,35 @@ def fixed_grid_program(cfg_key):
         if cfg["strategy"] != "filter":
             fm, fc = sol.solution_full.filtering.to_multivariate_normal()
             out["filt_mean"], out["filt_cov"] = fm, fc
-            post = sol.solution_full.posterior
-            out["post_marg_mean"], out["post_marg_cov"] = post.marginal.to_multivariate_normal()
-            cond = post.conditional.preconditioner_apply() if False else post.conditional
-            out["cond"] = cond
+            out["post"] = sol.solution_full.posterior
+        return out
+
+    return jax.jit(run)
+
+
+@functools.lru_cache(maxsize=None)
+def adaptive_program(cfg_key):
+    """Compile-once program for solve_adaptive_save_at with a scripted step history:
+    (C, save_at, tcoeffs, scale_vec, damp, S, r, dt0, eps) -> dict."""
+    from mc import scripted
+
+    cfg = dict(cfg_key)
+
+    def run(C, save_at, tcoeffs, scale_vec, damp, S, r, dt0, eps):
+        ssm = SSM[cfg["ssm"]]()
+        prior = make_prior(cfg, ssm, tcoeffs, scale_vec)
+        con = make_constraint(ssm, C, cfg["m"], cfg["lin"])
+        con0 = make_constraint(ssm, C, cfg["m"], cfg["lin"]) if cfg.get("constraint_init") else None
+        solver = make_solver(cfg, con, con0)
+        solve = ivpsolve.solve_adaptive_save_at(solver=solver, error=scripted.ScriptErr(S), control=scripted.ScriptCtl(S, r),
+                                                clip_dt=cfg.get("clip", False), warn=False)
+        sol = solve(prior, save_at=save_at, atol=1.0, rtol=1.0, dt0=dt0, eps=eps, damp=damp)
+        mean, cov = sol.u.to_multivariate_normal()
+        out = dict(mean=mean, cov=cov, output_scale=sol.output_scale, num_steps=sol.num_steps, t=sol.t)
+        if cfg["strategy"] != "filter":
+            fm, fc = sol.solution_full.filtering.to_multivariate_normal()
+            out["filt_mean"], out["filt_cov"] = fm, fc
+            out["post"] = sol.solution_full.posterior
         return out
 
     return jax.jit(run)
